@@ -1,0 +1,41 @@
+//go:build verif && !tinygo && !coraza.no_memoize
+
+// Verification hook of property C06 (add-only; compiled with -tags verif only): a read-only view
+// of the entries reachable through the process-wide cache whose key starts with a prefix.
+package memoize
+
+import (
+	"sort"
+	"strings"
+)
+
+// VerifC06Entry is one cache entry as seen through the map at the time of the call.
+type VerifC06Entry struct {
+	Key     string
+	Owners  []uint64
+	Deleted bool
+}
+
+// VerifC06Snapshot returns the entries reachable through the cache map whose key has the prefix,
+// sorted by key; each entry is read under its own lock.
+func VerifC06Snapshot(prefix string) []VerifC06Entry {
+	var out []VerifC06Entry
+	cache.Range(func(key, value any) bool {
+		k := key.(string)
+		if !strings.HasPrefix(k, prefix) {
+			return true
+		}
+		e := value.(*entry)
+		e.mu.Lock()
+		ve := VerifC06Entry{Key: k, Deleted: e.deleted}
+		for o := range e.owners {
+			ve.Owners = append(ve.Owners, o)
+		}
+		e.mu.Unlock()
+		sort.Slice(ve.Owners, func(i, j int) bool { return ve.Owners[i] < ve.Owners[j] })
+		out = append(out, ve)
+		return true
+	})
+	sort.Slice(out, func(i, j int) bool { return out[i].Key < out[j].Key })
+	return out
+}
